@@ -6,7 +6,7 @@
    SFs A: A followed by anything starts safely. *)
 From Coq Require Import String List NArith Bool Lia.
 From GQL Require Import Base.Bytes Syntax.Lexer Syntax.Ast Syntax.Parser Syntax.Printer
-  Proofs.SyntaxPrinter Proofs.SyntaxRender.
+  Proofs.SyntaxPrinter Proofs.SyntaxUtf8 Proofs.SyntaxRender.
 Import ListNotations.
 Open Scope N_scope.
 
@@ -99,7 +99,7 @@ Definition wordy_ok (k : tkind) (v : bytes) : bool :=
   | NAME => name_ok v
   | INT => num_okb v false
   | FLOAT => num_okb v true
-  | STRING => forallb (fun c => c <? 128) v
+  | STRING => str_okb v
   | _ => false
   end.
 
